@@ -218,6 +218,8 @@ type Conn struct {
 	// WriteErr, when set, is returned by every Write (fault injection).
 	writeErr error
 
+	blockWrites  bool // a Write waits (peer does not read, window full) until this end is closed or its write deadline fires
+	writersParked int
 	failArmed    bool
 	failAfter    int
 	failAfterErr error
@@ -236,8 +238,33 @@ func Pipe(tap Tap) (client, server *Conn) {
 
 func (c *Conn) Read(p []byte) (int, error) { return c.rd.read(p) }
 
+// BlockWrites models a peer that has stopped reading with the send window full: from now on a
+// Write on this end does not return until the end is closed (net.ErrClosed) or an armed write
+// deadline is fired (timeout).
+func (c *Conn) BlockWrites() {
+	c.mu.Lock()
+	c.blockWrites = true
+	c.mu.Unlock()
+}
+
+// WritersParked reports how many Write calls are currently waiting because of BlockWrites.
+func (c *Conn) WritersParked() int {
+	c.mu.Lock()
+	defer c.mu.Unlock()
+	return c.writersParked
+}
+
 func (c *Conn) Write(p []byte) (int, error) {
 	c.mu.Lock()
+	if c.blockWrites && !c.closed {
+		c.writersParked++
+		for !c.closed && !(c.wDeadlineSet && c.wFired) {
+			c.mu.Unlock()
+			time.Sleep(200 * time.Microsecond)
+			c.mu.Lock()
+		}
+		c.writersParked--
+	}
 	if c.failArmed && c.writeErr == nil && !c.closed {
 		if c.failAfter <= 0 {
 			c.writeErr = c.failAfterErr
